@@ -447,6 +447,7 @@ const rtimeMax = 1000000000
 // ---------------------------------------------------------------- generator
 
 type sessGen struct {
+	forceNewSeq int // next generated SequenceReset is a GapFill with this NewSeqNo (scenario earlyGapFill)
 	r      *rng
 	o      *out
 	do     func(string) string
@@ -697,7 +698,14 @@ func (g *sessGen) body(kind string) (f []string, quirk bool, planted, ptag strin
 		return
 	case "4":
 		n := g.target + r.rangeInt(-3, 8)
+		if g.forceNewSeq != 0 {
+			n = g.forceNewSeq
+		}
 		f = []string{"36=" + strconv.Itoa(n)}
+		if g.forceNewSeq != 0 {
+			g.forceNewSeq = 0
+			return append([]string{"123=Y"}, f...), false, "", ""
+		}
 		switch r.intn(6) {
 		case 0:
 			f = append([]string{"123=N"}, f...)
@@ -848,6 +856,30 @@ func (g *sessGen) logonExchange() {
 	}
 	g.peerSeq = seq + 1
 	g.run("in " + g.inbound("A", h))
+}
+
+// earlyGapFill: a SequenceReset-GapFill arrives EARLY (above the expected number) and skips at least two numbers, a later
+// message numbered at or above its NewSeqNo arrives early too; then the missing numbers are replayed in order, so that the
+// stash has to be drained across the kept gap fill; finally live traffic continues behind everything.
+func (g *sessGen) earlyGapFill() {
+	r := g.r
+	t := g.target
+	s := t + 1 + r.intn(3)
+	n := s + 2 + r.intn(3)
+	g.forceNewSeq = n
+	g.run("in " + g.inbound("4", g.goodHeader(s)))
+	for k := 0; k < 1+r.intn(2); k++ {
+		g.run("in " + g.inbound("D", g.goodHeader(n+k)))
+	}
+	for q := t; q < s; q++ {
+		h := g.goodHeader(q)
+		h.possDup, h.orig = "Y", "@-30"
+		g.run("in " + g.inbound(r.pick([]string{"D", "D", "0"}), h))
+	}
+	if n+3 > g.peerSeq {
+		g.peerSeq = n + 3
+	}
+	g.run("in " + g.inbound("D", g.goodHeader(g.target)))
 }
 
 // afterConnect: the connection is up and nobody has logged on yet.  Mostly the peer's Logon comes next; sometimes
@@ -1054,6 +1086,8 @@ func genSess(r *rng, tier string, idx int, o *out, do func(string) string) strin
 			} else {
 				g.run("timeout hb")
 			}
+		case x < 99 && (g.state == "InSession" || g.state == "Resend"):
+			g.earlyGapFill()
 		default:
 			// burst of in-sequence application messages (keeps sessions alive long enough to reach deep states)
 			for k := 0; k < 3; k++ {
